@@ -90,6 +90,9 @@ def judgeCut (t1 t2 : Table) (P12 P21 : List Spec.ValueTables.PrepCodon) (inDom 
   | some q =>
     let x12 := resOfOutcome (compromise exactArith t1 t2 q)
     let fx := if i12 == x12 then "" else "fx"
+    -- the Nat-level float64 instance (the one Props/C18F64 is about) must be the implementation too, bit for bit
+    let corr := corr && (q < 0 || q > 1 || !inDom ||
+      (i12 == resOfOutcome (compromise f64Arith t1 t2 q) && i21 == resOfOutcome (compromise f64Arith t2 t1 q)))
     let outOfRange := q < 0 || q > 1
     let pass :=
       if outOfRange then i12 == .err && i21 == .err          -- compromise_rejects: whatever the tables
